@@ -150,6 +150,7 @@ type vpLTx struct {
 }
 
 type vpLedger struct {
+	Drained []crypto.Hash // assets whose whole supply has been withdrawn (known to the store, total 0)
 	Store      *BadgerStore
 	Gns        *common.Genesis
 	NetId      crypto.Hash
